@@ -470,8 +470,21 @@ def run(out, tier, seed, model_ok):
         kw = dict(style_map=sm_text, output_format=fmt)
         if mode == "dir":
             kw["convert_image"] = mammoth.images.img_element(conv)
-        with open(inpath, "rb") as f:
-            lib = mammoth.convert(f, **kw)
+        try:
+            with open(inpath, "rb") as f:
+                lib = mammoth.convert(f, **kw)
+        except AttributeError:
+            if mode == "dir" and any(ct is None for ct, _b in seen):
+                # a picture whose content type cannot be determined: outside the property's quantifier (its pictures have a
+                # declared type); the command's image writer fails on it with an AttributeError (C20_output_dir_untyped_crash) and
+                # so does this reference converter.  Only that the command does not claim success is looked at.
+                out.count(key="cli-untyped-%d-%d" % (seed, i), nontrivial=False)
+                out.extra["c20_untyped_picture_cases"] = out.extra.get("c20_untyped_picture_cases", 0) + 1
+                if p.returncode == 0:
+                    out.violation("the command exited with status 0 although a picture without content type cannot be named",
+                                  {"kind": "cli", "args": [a.replace(d, "<dir>") for a in args], "style_map": sm, "docx_hex": data.hex() if len(data) < 40000 else None, "name": name})
+                continue
+            raise
         lib_value, lib_msgs = lib.value, [m.message for m in lib.messages]
         case_rec = {"kind": "cli", "args": [a.replace(d, "<dir>") for a in args], "style_map": sm, "docx_hex": data.hex() if len(data) < 40000 else None, "name": name,
                     "ascii_locale": asc}
